@@ -102,7 +102,7 @@ def handle (op : String) (args impl : List String) : Option Reply :=
     -- spec evaluated on the implementation's reply
     let spec : String :=
       match run (do let q ← list nat; let p ← nat; let f ← nat; pure (q, p, f)) impl with
-      | none => "na"
+      | none => if impl == ["panic"] then "bad:panic" else "na"
       | some (iq, ip, _) => specList labels iq ip qs
     pure (exact model (" ".intercalate impl) spec)
   | "specqlab" => do
@@ -115,7 +115,7 @@ def handle (op : String) (args impl : List String) : Option Reply :=
     let spec : String :=
       if !legal then "na" else
       match run (do let q ← list nat; let p ← nat; let f ← nat; pure (q, p, f)) impl with
-      | none => "na"
+      | none => if impl == ["panic"] then "bad:panic" else "na"
       | some (iq, ip, _) => specList (ps.map isDecoy) iq ip (spectrumQ (ps.map isDecoy)).1
     pure (exact model (" ".intercalate impl) spec)
   | "specqrle" => do
@@ -128,7 +128,7 @@ def handle (op : String) (args impl : List String) : Option Reply :=
     let model := outRuns mruns ++ " " ++ toString passing ++ " 1"
     let spec : String :=
       match run (do let q ← list (do let b ← nat; let k ← nat; pure (b, k)); let p ← nat; let f ← nat; pure (q, p, f)) impl with
-      | none => "na"
+      | none => if impl == ["panic"] then "bad:panic" else "na"
       | some (iruns, ip, _) =>
         if (iruns.map (·.2)).sum != total then "bad:length" else
         let nDec := ((runs.filter (·.1)).map (·.2)).sum
